@@ -469,14 +469,14 @@ private theorem deserUnits_showQ (P : Pint) (m u : String) (h : QOk P m u) :
   obtain ⟨_, h | h⟩ := h
   · obtain ⟨_, hn, hp⟩ := h
     unfold deserUnits
-    simp [startsWithNan_showQ m u hn, hp]
-  · obtain ⟨rfl, hnorm, m', hp⟩ := h
+    simp [isNanMagnitude_showQ m u hn, hp]
+  · obtain ⟨rfl, hnorm, hstrip, hslash, m', hp⟩ := h
     unfold deserUnits
-    have h1 : startsWithNan (showQ "nan" u).toList = true := by
-      rw [nan_showQ_toList]; simp [startsWithNan, stripPrefix?]
+    have h1 : isNanMagnitude (showQ "nan" u).toList = true := by
+      rw [nan_showQ_toList]; simp [isNanMagnitude, stripPrefix?]
     have h2 : (showQ "nan" u).toList.drop 3 = ' ' :: showTail u := by
       rw [nan_showQ_toList]; rfl
-    simp [h1, h2, hp, nanTimes, hnorm]
+    simp [h1, h2, hstrip, fixRecip_showTail u hslash, hp, nanTimes, hnorm]
 
 private theorem deser_quantityStr (P : Pint) (m u : String) (h : QOk P m u) :
     deserialize P (.str (quantityStr m u)) = .ok (.quantity (P.norm m u) u) := by
@@ -592,14 +592,17 @@ numpy scalars as Python scalars, a unit `u` as the quantity `1 u`, non-finite *p
 as `None`, processes / functions as their tagged strings (no deserializer exists) and each
 magnitude as pint re-reads it (`P.norm m u`, numerically `m`) — **under** `RTOk P v`:
 (a) no string leaf matches the reserved `!units[...]` pattern, (b) for every quantity the pint
-hypotheses `QOk` (`units(str(q))` is `q`; no newline in `str(q)`; for a nan magnitude `units` of
-what follows `nan` is a quantity in the same unit — `QOk_nan_of_unit`), (c) for every bare unit `UOk`
-(`units(str(u))` is `1 u`) **and its name does not start with `nan`**.
+hypotheses `QOk` (`units(str(q))` is `q`; no newline in `str(q)`; for a nan magnitude — whose
+`str` is `nan <unit>`, or `nan / x` for a unit printed `1 / x` — `units(u)` is a quantity in
+`u`, the unit string has no surrounding blanks and does not begin with `/`), (c) for every
+bare unit `UOk` (`units(str(u))` is `1 u`; the unit string is not literally the token `nan`).
+Since the repair 0802664 nothing excludes units whose name starts with `nan` (nanometer …) nor
+nan magnitudes with reciprocal units: see `bare_unit_nan_prefix_roundtrips` and
+`nan_reciprocal_unit_roundtrips`.
 
 Missing for the full statement: (b)/(c) are facts about pint's `str` and `parse_expression`,
 not provable without re-implementing pint — they are sampled against the real pint by the
-correspondence check and shown satisfiable by `token_pint_ok`; the `nan`-prefix exclusion in (c)
-is a genuine gap of the code, see `bare_unit_nan_prefix_fails`. -/
+correspondence check and shown satisfiable by `token_pint_ok`. -/
 theorem roundtrip_partial (P : Pint) (v : PVal) (j : JVal) (hr : RTOk P v)
     (h : serialize v = .ok j) : deserialize P j = .ok (view P.norm v) := rt_v P v j hr h
 
@@ -610,14 +613,19 @@ theorem token_pint_ok :
     QOk Pint.token "5" "femtogram" ∧ QOk Pint.token "nan" "femtogram" ∧
     QOk Pint.token "-inf" "gram / liter ** 2" ∧ QOk Pint.token "1e+22" "millimole / gram / hour" ∧
     QOk Pint.token "3" "count / femtoliter" ∧ UOk Pint.token "millimole / gram / hour" ∧
-    UOk Pint.token "femtogram" ∧ QOk Pint.token "5" "1 / second" ∧ UOk Pint.token "1 / second" := by
+    UOk Pint.token "femtogram" ∧ QOk Pint.token "5" "1 / second" ∧ UOk Pint.token "1 / second" ∧
+    UOk Pint.token "nanometer" ∧ QOk Pint.token "nan" "1 / second" ∧
+    QOk Pint.token "nan" "nanometer" := by
   refine ⟨⟨by decide, Or.inl ⟨by decide, by decide, by rfl⟩⟩,
-          QOk_nan_of_unit Pint.token "femtogram" "1" (by decide) (by decide) (by decide) (by rfl) (by rfl),
+          ⟨by decide, Or.inr ⟨rfl, by rfl, by decide, by decide, "1", by rfl⟩⟩,
           ⟨by decide, Or.inl ⟨by decide, by decide, by rfl⟩⟩,
           ⟨by decide, Or.inl ⟨by decide, by decide, by rfl⟩⟩,
           ⟨by decide, Or.inl ⟨by decide, by decide, by rfl⟩⟩,
           ⟨by decide, by decide, by rfl⟩, ⟨by decide, by decide, by rfl⟩,
-          ⟨by decide, Or.inl ⟨by decide, by decide, by rfl⟩⟩, ⟨by decide, by decide, by rfl⟩⟩
+          ⟨by decide, Or.inl ⟨by decide, by decide, by rfl⟩⟩, ⟨by decide, by decide, by rfl⟩,
+          ⟨by decide, by decide, by rfl⟩,
+          ⟨by decide, Or.inr ⟨rfl, by rfl, by decide, by decide, "1.0", by rfl⟩⟩,
+          ⟨by decide, Or.inr ⟨rfl, by rfl, by decide, by decide, "1", by rfl⟩⟩⟩
 
 example :
     let v := PVal.dict [(.str "a", .tuple [.quantity "nan" "femtogram", .unit "femtogram",
@@ -633,47 +641,44 @@ example :
   refine ⟨⟨token_pint_ok.2.1, token_pint_ok.2.2.2.2.2.2.1, ⟨trivial, trivial, trivial⟩,
     token_pint_ok.1, trivial⟩, by decide, trivial⟩
 
-/-- **A bare unit whose name starts with `nan` does not round-trip** (`nanometer`, `nanogram`,
-`nanomolar` …): `UnitsSerializer.deserialize` takes the leading `nan` for a nan magnitude, so for
-EVERY pint the result is computed from `units("ometer")` — an error for the real registry, and
-never the unit that was serialized.  (Candidate finding; hence the exclusion in `UOk`.) -/
-theorem bare_unit_nan_prefix_fails (P : Pint) (u : String) (hnl : NoNL u)
-    (hn : startsWithNan u.toList = true) :
+/-- **Regression (finding A, repaired by 0802664): a bare unit whose name starts with `nan`
+round-trips** (`nanometer`, `nanogram`, `nanomolar` …).  The unit string is not the separate
+token `nan`, so it goes to `units(u)` as a whole: under the same pint hypothesis as for any
+other unit (`units(u)` is `1 u`) the unit comes back as `1 u`.  Before the repair the result
+was computed from `units("ometer")`. -/
+theorem bare_unit_nan_prefix_roundtrips (P : Pint) (u : String) (hnl : NoNL u)
+    (_hn : startsWithNan u.toList = true) (hnot : isNanMagnitude u.toList = false)
+    (hp : P.parse u = .ok (.quantity (P.norm "1" u) u)) :
     serialize (.unit u) = .ok (.str (tagUnits u)) ∧
-    deserialize P (.str (tagUnits u)) =
-      (match P.parse (String.ofList (pyStripL (u.toList.drop 3))) with
-       | .ok r => .ok (nanTimes r)
-       | .error e => .error e) := by
+    deserialize P (.str (tagUnits u)) = .ok (view P.norm (.unit u)) :=
+  ⟨rfl, by simpa [view] using deser_unit P u ⟨hnl, hnot, hp⟩⟩
+
+example : startsWithNan "nanometer".toList = true ∧ isNanMagnitude "nanometer".toList = false ∧
+    deserialize Pint.token (.str (tagUnits "nanometer")) = .ok (.quantity "1" "nanometer") ∧
+    deserialize Pint.token (.str (quantityStr "nan" "nanometer")) =
+      .ok (.quantity "nan" "nanometer") := by
+  refine ⟨by decide, by decide, by rfl, by rfl⟩
+
+/-- **Regression (finding B, repaired by 0802664): a nan magnitude with a unit printed `1 / x`
+round-trips.**  `str(q)` is `nan / x`; the code cuts off `nan`, strips, re-reads `/ x` as
+`1 / x` — the unit string itself — so under the hypothesis that `units(u)` is a quantity in
+`u` (and `x` carries no trailing blanks / newline) the quantity comes back with magnitude nan
+and the same unit.  Before the repair the result was computed from `units("/ x")`. -/
+theorem nan_reciprocal_unit_roundtrips (P : Pint) (u m' : String) (rest : List Char)
+    (hu : stripPrefix? recipPrefix u.toList = some rest) (hnl : NoNL (showQ "nan" u))
+    (hstrip : pyStripL (' ' :: '/' :: ' ' :: rest) = '/' :: ' ' :: rest)
+    (hnorm : P.norm "nan" u = "nan") (hp : P.parse u = .ok (.quantity m' u)) :
+    serialize (.quantity "nan" u) = .ok (.str (quantityStr "nan" u)) ∧
+    deserialize P (.str (quantityStr "nan" u)) = .ok (.quantity "nan" u) := by
   refine ⟨rfl, ?_⟩
-  simp only [deserialize, tagContent_tagUnits u hnl]
-  unfold deserUnits
-  simp only [hn, if_true]
-  cases P.parse (String.ofList (pyStripL (u.toList.drop 3))) <;> rfl
-
-example : String.ofList (pyStripL ("nanometer".toList.drop 3)) = "ometer" ∧
-    deserialize Pint.token (.str (tagUnits "nanometer")) = .ok (.quantity "nan" "ometer") := by
-  constructor <;> rfl
-
-/-- **A nan magnitude with a unit printed `1 / x` does not round-trip** (candidate finding B):
-`str(q)` is `nan / x`, the leading `nan` is cut off and, for EVERY pint, the result is computed
-from `units("/ x")` — which the real pint refuses (`DefinitionSyntaxError`). -/
-theorem nan_reciprocal_unit_fails (P : Pint) (u : String) (rest : List Char)
-    (hu : stripPrefix? recipPrefix u.toList = some rest) (hnl : NoNL (showQ "nan" u)) :
-    deserialize P (.str (quantityStr "nan" u)) =
-      (match P.parse (String.ofList (pyStripL (' ' :: '/' :: ' ' :: rest))) with
-       | .ok r => .ok (nanTimes r)
-       | .error e => .error e) := by
-  simp only [deserialize, tagContent_quantityStr "nan" u hnl]
-  unfold deserUnits
-  have h1 : startsWithNan (showQ "nan" u).toList = true := by
-    rw [nan_showQ_toList]; simp [startsWithNan, stripPrefix?]
-  have h2 : (showQ "nan" u).toList.drop 3 = ' ' :: '/' :: ' ' :: rest := by
-    rw [nan_showQ_toList]; simp [showTail, hu]
-  simp only [h1, if_true, h2]
-  cases P.parse (String.ofList (pyStripL (' ' :: '/' :: ' ' :: rest))) <;> rfl
+  have hslash : NoLeadingSlash u := by
+    unfold NoLeadingSlash; rw [stripPrefix?_some hu]; simp [recipPrefix]
+  have hq : QOk P "nan" u :=
+    ⟨hnl, Or.inr ⟨rfl, hnorm, by simpa [showTail, hu] using hstrip, hslash, m', hp⟩⟩
+  simpa [hnorm] using deser_quantityStr P "nan" u hq
 
 example : serialize (.quantity "nan" "1 / second") = .ok (.str "!units[nan / second]") ∧
-    String.ofList (pyStripL (' ' :: '/' :: ' ' :: "second".toList)) = "/ second" := by
+    deserialize Pint.token (.str "!units[nan / second]") = .ok (.quantity "nan" "1 / second") := by
   constructor <;> rfl
 
 /-! ## plain data -/
